@@ -31,7 +31,7 @@ def build(d):
         if nodes is None:
             return {"discard": state}
         spec = projgen.gen_project(d, nodes, state, pep_shaped=False, max_files=5, max_patterns=3, regimes=["lf", "lf", "crlf", "cr"],
-                                   allow_partial=True, share_patterns=True)
+                                   allow_partial=True, share_patterns=True, cover_config=d.chance(1, 4))
         spec["legacy"] = False
         flags, date = projgen.gen_bump(d, nodes, state)
     return {"spec": spec, "flags": flags, "date": date, "commit": d.chance(1, 2), "tag": d.bool(), "fault_style": d.choice(["remove", "delimiter"])}
@@ -47,7 +47,7 @@ def processing_order(spec):
         if key == "*.toml":
             order.append("bumpver.toml")
         elif "*" in key:
-            order += ["glob/one.txt", "glob/two.txt"]
+            order += [f["path"] for f in spec["files"] if f["path"].startswith("glob/")]
         else:
             order.append(key)
     if "bumpver.toml" not in order:
@@ -69,6 +69,9 @@ def faults_of(spec):
         if any(key == f["path"] for key, _idx in spec["entries"]):
             # a file that is covered by a glob entry only simply drops out of the glob when it is removed
             fs.append({"kind": "missing", "file": fi})
+    if spec.get("config_marks"):
+        # the config file's own entry (a glob that covers it) loses its occurrence in the config file
+        fs.append({"kind": "config-entry-nomatch"})
     fs.append({"kind": "set-version", "how": "equal"})
     fs.append({"kind": "set-version", "how": "malformed"})
     fs.append({"kind": "set-version", "how": "lower"})
@@ -77,6 +80,8 @@ def faults_of(spec):
 
 def apply_fault(spec, fault, style):
     s = copy.deepcopy(spec)
+    if fault["kind"] == "config-entry-nomatch":
+        s["config_marks"] = []
     if fault["kind"] == "nomatch":
         f = s["files"][fault["file"]]
         for segs in f["lines"]:
@@ -123,6 +128,8 @@ def check(case):
                 os.unlink(os.path.join(tmp, faulty_path))
             elif fault["kind"] == "nomatch":
                 faulty_path = spec["files"][fault["file"]]["path"]
+            elif fault["kind"] == "config-entry-nomatch":
+                faulty_path = "bumpver.toml"
             elif fault["kind"] == "emptied":
                 faulty_path = spec["files"][fault["file"]]["path"]
                 open(os.path.join(tmp, faulty_path), "w").close()
